@@ -41,6 +41,7 @@ func main() {
 	pkgDir := flag.String("pkg", "", "package directory relative to repo (e.g. pkg/netpol/internal/common)")
 	hdir := flag.String("harness", "", "directory with harness .go files to overlay into the package")
 	vfFile := flag.String("vf", "", "vf primitives template file (package clause is rewritten)")
+	shared := flag.String("shared", "", "directory of shared helper .go files injected with the package clause rewritten")
 	pat := flag.String("run", "^ZZ_", "regexp of harness function names")
 	out := flag.String("out", "", "output JSON file")
 	workers := flag.Int("workers", 16, "worker goroutines")
@@ -52,8 +53,9 @@ func main() {
 	verbose := flag.Bool("v", false, "verbose")
 	mapSched := flag.Int("mapsched", -1, "map-iteration schedule mode: max deviating sites (-1 = off)")
 	timeout := flag.Int("solver-timeout", 20000, "per query ms")
+	wallLimit := flag.Int("wall", 0, "wall-clock limit per harness in seconds (0 = none); exceeding it truncates the exploration")
 	tier := flag.Int("tier", 0, "value returned by vf_Tier (0 quick, 1 thorough)")
-	liaSolver := flag.String("lia-solver", "z3", "solver for the integer view (z3|cvc5)")
+	liaSolver := flag.String("lia-solver", "cvc5", "solver for the integer view (z3|cvc5)")
 	crossSolver := flag.String("cross-solver", "cvc5", "second solver (one-shot)")
 	flag.Parse()
 
@@ -81,6 +83,23 @@ func main() {
 					pkgName = string(m[1])
 				}
 			}
+		}
+	}
+	if *shared != "" {
+		ents, err := os.ReadDir(*shared)
+		if err != nil {
+			fatal(err)
+		}
+		for _, e := range ents {
+			if !strings.HasSuffix(e.Name(), ".go") {
+				continue
+			}
+			b, err := os.ReadFile(filepath.Join(*shared, e.Name()))
+			if err != nil {
+				fatal(err)
+			}
+			b = regexp.MustCompile(`(?m)^package \w+`).ReplaceAll(b, []byte("package "+pkgName))
+			overlay[filepath.Join(absPkg, e.Name())] = b
 		}
 	}
 	if *vfFile != "" {
@@ -137,6 +156,7 @@ func main() {
 	eng.Verbose = *verbose
 	eng.SolverTimeout = *timeout
 	eng.Tier = *tier
+	eng.WallLimit = time.Duration(*wallLimit) * time.Second
 	eng.LIASolver = *liaSolver
 	eng.CrossSolver = *crossSolver
 	if *mapSched >= 0 {
